@@ -25,15 +25,15 @@
 (***************************************************************************)
 EXTENDS Naturals
 CONSTANTS Versions, Invalid
-ASSUME Invalid \subseteq Versions
+ASSUME InvalidSub == Invalid \subseteq Versions
 VARIABLES gram,      \* version currently in the grammar file
           parser,    \* parser file (see above) or NoFile
           last       \* outcome of the last step: "none" | "fresh" | "regenerated" | "failed"
 bsvars == <<gram, parser, last>>
 NoFile == [kind |-> "absent", from |-> 0]
 Gen(v) == [kind |-> "gen", from |-> v]
-Files == {NoFile, [kind |-> "none", from |-> 0]} \cup { [kind |-> k, from |-> v] : k \in {"gen", "late"}, v \in Versions \ Invalid }
-          \cup { [kind |-> "late", from |-> v] : v \in Invalid }
+Files == {NoFile, [kind |-> "none", from |-> 0]} \cup { [kind |-> "gen", from |-> v] : v \in Versions \ Invalid }
+          \cup { [kind |-> "late", from |-> v] : v \in Versions }
 
 Digest(v) == v                                      \* injective
 None == 0                                           \* Versions are positive
